@@ -225,6 +225,7 @@ func runC18(ctx *Ctx) {
 	rep := ctx.Rep
 	rep.Rule = "tables built from rule-relevant feature vectors (editable ancestor, roles incl. case variants, datatable, nesting, rows 1/2/3/5/6/19/20, cols 1/2/4/5, row/colspan, header structures, cell attributes, summary, embedded objects), classified stand-alone and inside multi-table documents by the converter; distinct by feature vector; non-trivial = at least two rules of the cascade applicable or a feature on a threshold"
 	corr := newCorr("tableclass")
+	corr.keepAll = true
 	type pending struct {
 		impl   string
 		replay tableReplay
